@@ -384,4 +384,112 @@ example : wrapRead 1500 [0, 0, 0, 1, 8, 8, 8, 8, 0, 0x35] = .ok ([8, 8, 8, 8], 5
 example : parseUDP [0, 0, 0, 1, 8, 8, 8, 8, 0, 0x35]
     = .ok { dst := { addr := .ip4 [8, 8, 8, 8], port := 53 }, header := [0, 0, 0, 1, 8, 8, 8, 8, 0, 0x35], payload := [] } := by rfl
 
+/-- the wrapper pair: what `WriteTo(p, ip:port)` sends, `ReadFrom` returns as the same payload
+    (cut to the caller's buffer like a UDP read) from the same address — for EVERY payload
+    including the empty one, IPv4, IPv6 and IPv4-mapped addresses -/
+theorem wrapper_roundtrip (ip : Bytes) (hip : ip.length = 4 ∨ ip.length = 16) (port : Nat)
+    (hp : port < 65536) (p : Bytes) (cap : Nat) :
+    wrapRead cap (wrapWrite ip port p) = .ok (canonIP ip, port, p.take cap) := by
+  have hc4 : (canonIP ip).length = 4 ∨ ((canonIP ip).length = 16 ∧ isV4Mapped (canonIP ip) = false) := by
+    unfold canonIP
+    cases hm : isV4Mapped ip with
+    | true =>
+      left
+      have : ip.length = 16 := by
+        simp only [isV4Mapped, Bool.and_eq_true, beq_iff_eq] at hm; exact hm.1
+      simp [this]
+    | false =>
+      rcases hip with h4 | h16
+      · left; simpa using h4
+      · right; exact ⟨by simpa using h16, by simpa using hm⟩
+  rcases hc4 with h4 | ⟨h16, hnm⟩
+  · have hw : ({ addr := .ip4 (canonIP ip), port := port } : AddrPort).wf := ⟨hp, h4⟩
+    have := wrapRead_build { addr := .ip4 (canonIP ip), port := port } hw trivial
+      ((0x01 : UInt8) :: canonIP ip ++ portBytes port) rfl
+      (by simp [portBytes, h4]) p cap
+    simpa [wrapWrite, headerOf, h4] using this
+  · have hw : ({ addr := .ip6 (canonIP ip), port := port } : AddrPort).wf := ⟨hp, h16⟩
+    have hb : buildAddr { addr := .ip6 (canonIP ip), port := port }
+        = some ((0x04 : UInt8) :: canonIP ip ++ portBytes port) := by
+      simp only [buildAddr, hnm, Bool.false_eq_true, if_false]
+    have := wrapRead_build { addr := .ip6 (canonIP ip), port := port } hw hnm _ hb
+      (by simp [portBytes, h16]) p cap
+    simpa [wrapWrite, headerOf, h16] using this
+
+/-- in particular the empty datagram survives the wrapper (F-C18 after the repair) -/
+theorem wrapper_empty_payload_ok (ip : Bytes) (hip : ip.length = 4 ∨ ip.length = 16) (port : Nat)
+    (hp : port < 65536) (cap : Nat) :
+    wrapRead cap (wrapWrite ip port []) = .ok (canonIP ip, port, []) := by
+  simpa using wrapper_roundtrip ip hip port hp [] cap
+
+/-! ## the relay of `RunUDPAssociateLoop` -/
+
+/-- relay, upstream: a datagram is sent exactly when its header parses and names a destination;
+    then it goes to THAT destination (the literal address, or what the resolver returned for the
+    name), carries exactly the payload bytes, and its header is remembered for that destination -/
+theorem assoc_delivery (s s' : Assoc) (pkt ip payload : Bytes) (port : Nat)
+    (h : s.up pkt = (s', .send ip port payload)) :
+    ∃ d, parseUDP pkt = .ok d ∧ payload = d.payload ∧
+      (dest d.dst = .ip ip port ∨
+        ∃ n rip, dest d.dst = .lookup n port ∧ lookupHost s.hosts n = some rip ∧ ip = canonIP rip) ∧
+      getHeader s'.headers (ip, port) = some d.header := by
+  unfold Assoc.up at h
+  split at h
+  · simp at h
+  · rename_i d hd
+    refine ⟨d, hd, ?_⟩
+    cases hdest : dest d.dst with
+    | ip ip' p' =>
+      simp only [hdest, Prod.mk.injEq, Up.send.injEq] at h
+      obtain ⟨hs, hip, hp, hpl⟩ := h
+      subst hs hip hp hpl
+      exact ⟨rfl, Or.inl rfl, getHeader_setHeader _ _ _⟩
+    | lookup n p' =>
+      simp only [hdest] at h
+      cases hl : lookupHost s.hosts n with
+      | none => simp [hl] at h
+      | some rip =>
+        simp only [hl, Option.map_some, Prod.mk.injEq, Up.send.injEq] at h
+        obtain ⟨hs, hip, hp, hpl⟩ := h
+        subst hs hip hp hpl
+        exact ⟨rfl, Or.inr ⟨n, rip, rfl, hl, rfl⟩, getHeader_setHeader _ _ _⟩
+    | none => simp [hdest] at h
+
+/-- relay, downstream: a reply from host `ip:port` is written to the tunnel as the header
+    remembered for that host (the one the client last used for it) or, for a host never written
+    to, the literal header of its address — followed by exactly the reply bytes -/
+theorem assoc_reply_header (s : Assoc) (ip payload : Bytes) (port : Nat) :
+    (s.down ip port payload).2 =
+      (match getHeader s.headers (canonIP ip, port) with
+        | some h => h
+        | none => headerOf ip port) ++ payload := by
+  unfold Assoc.down
+  dsimp only
+  cases hg : getHeader s.headers (canonIP ip, port) <;> simp [hg]
+
+/-! ## non-vacuity: concrete instances of the hypotheses -/
+
+/-- empty, marker-valued and frame-looking datagrams, fed byte by byte -/
+example : ([[0x00], [0x00], [0x00], [0xff], [0x00], [0x00], [0x01], [0x00], [0xff],
+            [0x00, 0x00, 0x05, 0x00, 0x00, 0x01, 0x41, 0xff, 0xff]].foldl feed (init 65536)).out
+    = [[], [0x00], [0x00, 0x00, 0x01, 0x41, 0xff]] := by rfl
+example : posEncode [[], [0x00], [0x00, 0x00, 0x01, 0x41, 0xff]]
+    = [0x00, 0x00, 0x00, 0xff, 0x00, 0x00, 0x01, 0x00, 0xff, 0x00, 0x00, 0x05, 0x00, 0x00, 0x01, 0x41, 0xff, 0xff] := by rfl
+example : Fits 2 [[], [0x00], [0x00, 0xff]] := by
+  intro d hd
+  simp only [List.mem_cons, List.not_mem_nil, or_false] at hd
+  rcases hd with rfl | rfl | rfl <;> simp [maxLen]
+/-- an error state is reachable (bad end marker) and `finish` reports it -/
+example : finish (feed (init 16) [0x00, 0x00, 0x01, 0x41, 0x00, 0x00, 0x00, 0x00, 0xff]) = .err .badSuffix := by rfl
+/-- a 3-byte datagram offered to a 2-byte buffer -/
+example : finish (feed (init 2) (posFrame [1, 2, 3])) = .err .shortBuffer := by rfl
+/-- a well-formed canonical address of every kind -/
+example : ({ addr := .ip4 [127, 0, 0, 1], port := 53 } : AddrPort).wf ∧
+    ({ addr := .domain [0x61], port := 65535 } : AddrPort).wf ∧
+    ({ addr := .domain [0x61], port := 65535 } : AddrPort).canonical := by
+  refine ⟨⟨by decide, rfl⟩, ⟨by decide, by decide⟩, by simp [AddrPort.canonical]⟩
+/-- IPv4-mapped IPv6 is NOT canonical: it is rebuilt as ATYP 1 (same destination, other bytes) -/
+example : buildUDP { addr := .ip6 [0,0,0,0,0,0,0,0,0,0,0xff,0xff,127,0,0,1], port := 53 } []
+    = some [0, 0, 0, 1, 127, 0, 0, 1, 0, 53] := by rfl
+
 end Mieru.C18
